@@ -7,24 +7,70 @@ clusters are encoded.  The rune-level statement is tied by the relational run of
 (the same operation on a text and on its cluster-for-cluster substitution, on the real code).
 -/
 import RosedVerif.Spec.Naturality
+import RosedVerif.Model.BridgeWrap
 namespace RosedVerif.Props
 open RosedVerif.Spec
 variable {α β : Type} {tk : Toks α} {tk' : Toks β} {g : α → β}
 
 theorem C03_wrap (h : TokMap tk tk' g) (w : Nat) (l : List α) :
-    wrapLines tk' w (l.map g) = (wrapLines tk w l).map (List.map g) := wrapLines_map h w l
+    Spec.wrapLines tk' w (l.map g) = (Spec.wrapLines tk w l).map (List.map g) := wrapLines_map h w l
 theorem C03_wrap_breaks (h : TokMap tk tk' g) (w : Nat) (l : List α) :
-    (wrapLines tk' w (l.map g)).map List.length = (wrapLines tk w l).map List.length :=
+    (Spec.wrapLines tk' w (l.map g)).map List.length = (Spec.wrapLines tk w l).map List.length :=
   wrapLines_map_lengths h w l
-theorem C03_collapse (h : TokMap tk tk' g) (l : List α) : collapse tk' (l.map g) = (collapse tk l).map g :=
+theorem C03_collapse (h : TokMap tk tk' g) (l : List α) : Spec.collapse tk' (l.map g) = (Spec.collapse tk l).map g :=
   collapse_map h l
 theorem C03_alignLeft (h : TokMap tk tk' g) (w : Int) (l : List α) :
-    alignLeft tk' w (l.map g) = (alignLeft tk w l).map g := alignLeft_map h w l
+    Spec.alignLeft tk' w (l.map g) = (Spec.alignLeft tk w l).map g := alignLeft_map h w l
 theorem C03_alignRight (h : TokMap tk tk' g) (w : Int) (l : List α) :
-    alignRight tk' w (l.map g) = (alignRight tk w l).map g := alignRight_map h w l
+    Spec.alignRight tk' w (l.map g) = (Spec.alignRight tk w l).map g := alignRight_map h w l
 theorem C03_alignCenter (h : TokMap tk tk' g) (w : Int) (l : List α) :
-    alignCenter tk' w (l.map g) = (alignCenter tk w l).map g := alignCenter_map h w l
-theorem C03_words (h : TokMap tk tk' g) (l : List α) : words tk' (l.map g) = (words tk l).map (List.map g) :=
+    Spec.alignCenter tk' w (l.map g) = (Spec.alignCenter tk w l).map g := alignCenter_map h w l
+theorem C03_words (h : TokMap tk tk' g) (l : List α) : Spec.words tk' (l.map g) = (Spec.words tk l).map (List.map g) :=
   words_map h l
+
+open RosedVerif in
+/-- **on code points**: take two stable vocabularies `V`, `V'` (any encodings: precomposed or
+decomposed accents, ZWJ sequences, flags, jamo …) and ANY cluster-for-cluster substitution `g`
+from `V` into `V'` that keeps whitespace clusters whitespace, non-whitespace clusters
+non-whitespace, and fixes the space and the hyphen.  Then the model of manip.Wrap on the CODE
+POINTS of a text and of its substituted text (real UAX #29 segmentation on both) produce line lists
+that are the same cluster-for-cluster substitution of one another: same breaks, same hyphens. -/
+theorem C03_wrap_code_points {V V' : List (List Int)}
+    (hV : VocabStable V = true) (hsp : [0x20] ∈ V) (hspTail : ∀ t ∈ V, (0x20 : Int) ∉ t.tail)
+    (hV' : VocabStable V' = true) (hsp' : [0x20] ∈ V') (hspTail' : ∀ t ∈ V', (0x20 : Int) ∉ t.tail)
+    (g : List Int → List Int) (hg : ∀ t ∈ V, g t ∈ V')
+    (hws : ∀ t, cxB.isSpace (g t) = cxB.isSpace t) (hgsp : g [0x20] = [0x20]) (hghy : g [0x2D] = [0x2D])
+    (toks : List (List Int)) (ht : ∀ t ∈ toks, t ∈ V) (w : Int) :
+    ∃ r : List (List (List Int)),
+      RosedVerif.wrapLines cxA toks.flatten w [] = .ok (r.map List.flatten) ∧
+      RosedVerif.wrapLines cxA (toks.map g).flatten w [] = .ok ((r.map (List.map g)).map List.flatten) := by
+  have hmap : TokMap ⟨cxB.isSpace, cxB.sp, cxB.hy⟩ ⟨cxB.isSpace, cxB.sp, cxB.hy⟩ g := ⟨hws, hgsp, hghy⟩
+  refine ⟨Spec.wrapLines ⟨cxB.isSpace, cxB.sp, cxB.hy⟩ (max w 2).toNat toks,
+    wrapLines_bridge_spec hV hsp hspTail toks ht w, ?_⟩
+  have ht' : ∀ t ∈ toks.map g, t ∈ V' := by
+    intro t h
+    obtain ⟨u, hu, rfl⟩ := List.mem_map.1 h
+    exact hg u (ht u hu)
+  rw [wrapLines_bridge_spec hV' hsp' hspTail' (toks.map g) ht' w, wrapLines_map hmap]
+
+open RosedVerif in
+/-- the same for CollapseSpace -/
+theorem C03_collapse_code_points {V V' : List (List Int)}
+    (hV : VocabStable V = true) (hsp : [0x20] ∈ V) (hspTail : ∀ t ∈ V, (0x20 : Int) ∉ t.tail)
+    (hV' : VocabStable V' = true) (hsp' : [0x20] ∈ V') (hspTail' : ∀ t ∈ V', (0x20 : Int) ∉ t.tail)
+    (g : List Int → List Int) (hg : ∀ t ∈ V, g t ∈ V')
+    (hws : ∀ t, cxB.isSpace (g t) = cxB.isSpace t) (hgsp : g [0x20] = [0x20]) (hghy : g [0x2D] = [0x2D])
+    (toks : List (List Int)) (ht : ∀ t ∈ toks, t ∈ V) :
+    ∃ r : List (List Int),
+      collapseSpace cxA toks.flatten [] = .ok r.flatten ∧
+      collapseSpace cxA (toks.map g).flatten [] = .ok (r.map g).flatten := by
+  have hmap : TokMap ⟨cxB.isSpace, cxB.sp, cxB.hy⟩ ⟨cxB.isSpace, cxB.sp, cxB.hy⟩ g := ⟨hws, hgsp, hghy⟩
+  refine ⟨Spec.collapse ⟨cxB.isSpace, cxB.sp, cxB.hy⟩ toks,
+    collapseSpace_bridge_spec hV hsp hspTail toks ht, ?_⟩
+  have ht' : ∀ t ∈ toks.map g, t ∈ V' := by
+    intro t h
+    obtain ⟨u, hu, rfl⟩ := List.mem_map.1 h
+    exact hg u (ht u hu)
+  rw [collapseSpace_bridge_spec hV' hsp' hspTail' (toks.map g) ht', collapse_map hmap]
 
 end RosedVerif.Props
